@@ -68,9 +68,10 @@ def run(ctx):
     for phase in cprgen.phases(ctx):
         states = cprgen.run_model(ctx, "local", "C04 local decode" + " (anchor shard %d/4)" % phase, phase)
         ctx.extra["model_cases"] += len(states)
-        # bounded memory: replay and validate the shard in slices of 20 000 model cases
-        for lo in range(0, len(states), 20000):
-            ctx.check_events(vectors(ctx, states[lo:lo + 20000]), case_of=case_of)
+        # bounded memory: replay and validate the shard in slices of 25 000 model cases (thorough)
+        step = ctx.pick(200000, 25000)
+        for lo in range(0, len(states), step):
+            ctx.check_events(vectors(ctx, states[lo:lo + step]), case_of=case_of)
         del states
 
 
